@@ -115,3 +115,28 @@ def _v22(repo, mod):
 def _v23(repo, mod):
     _fn, r = _reset(repo, RND, "RandomAlgorithm.generate_tests")
     return insert_before(mod, r, 'self._logger.info("starting")\nspare = tsc.TestSuiteChromosome()')
+
+
+@variant("C17", "timed-out-execution-not-charged", "pynguin.testcase.execution", "C17.charged", "statements of a timed-out test are not charged to the statement budget (the repaired defect)")
+def _v50(repo, mod):
+    fn = repo.func("pynguin.testcase.execution", "TestCaseExecutor.execute")
+    s = find_stmt(fn, lambda s: isinstance(s, ast.If) and norm(s.test) == "result.timeout")
+    return delete_stmt(mod, s)
+
+
+@variant("C17", "charge-only-for-results-from-the-queue", "pynguin.testcase.execution", "C17.charged", "charge moved into the branch that takes a result from the queue: the watchdog's own timeout result stays uncharged")
+def _v51(repo, mod):
+    from sa.selftest.harness import replace_nodes
+    fn = repo.func("pynguin.testcase.execution", "TestCaseExecutor.execute")
+    s = find_stmt(fn, lambda s: isinstance(s, ast.If) and norm(s.test) == "result.timeout")
+    g = find_stmt(fn, lambda s: isinstance(s, ast.Assign) and "return_queue.get" in norm(s.value))
+    ind = " " * g.col_offset
+    return replace_nodes(mod, [(s, "pass"), (g, mod.segment(g) + f"\n{ind}if result.timeout:\n{ind}    result.num_executed_statements = started_statements[0]")])
+
+
+@variant("C17", "twin-charge-at-construction", "pynguin.testcase.execution", None, "each substitute result gets its count where it is built")
+def _v52(repo, mod):
+    src = mod.source
+    src = src.replace("                result = ExecutionResult(timeout=True)\n                _LOGGER.warning(\"Experienced timeout from test-case execution\")\n", "                result = ExecutionResult(timeout=True)\n                result.num_executed_statements = started_statements[0]\n                _LOGGER.warning(\"Experienced timeout from test-case execution\")\n")
+    src = src.replace("                    _LOGGER.error(\"Bug in Pynguin!\")\n                    result = ExecutionResult(timeout=True)\n", "                    _LOGGER.error(\"Bug in Pynguin!\")\n                    result = ExecutionResult(timeout=True)\n                    result.num_executed_statements = started_statements[0]\n")
+    return src
